@@ -4,6 +4,7 @@ import (
 	"encoding/json"
 	"fmt"
 	"os"
+	"runtime/debug"
 	"sort"
 	"strings"
 	"time"
@@ -79,6 +80,9 @@ func cmdCheck(ids []string, tier string) int {
 		func() {
 			defer func() {
 				if e := recover(); e != nil {
+					if os.Getenv("GLCHECK_STACK") != "" {
+						fmt.Fprintln(os.Stderr, string(debug.Stack()))
+					}
 					obs = append(obs, undecided(id+"/engine/panic", "the analysis completes", fmt.Sprint(e)))
 				}
 			}()
@@ -165,14 +169,14 @@ func init() {
 		Rule: "one obligation for the order, one per distinct event (binding/coverage), one for the openings order, one for the buffer reset"})
 	registerProp(&propDef{ID: "C01", Floor: 109, Rules: func(cx *Ctx) []Obligation {
 		obs := append(rulesC01Own(cx), rulesConfigCoverage(cx, "C01/O1.4")...)
-		for _, f := range []func(*Ctx) []Obligation{rulesC11, rulesC12, rulesC13, rulesC14, rulesC16, rulesC17, rulesC20, rulesC06} {
+		for _, f := range []func(*Ctx) []Obligation{rulesC11, rulesC12, rulesC13, rulesC14, rulesC15, rulesC16, rulesC17, rulesC20, rulesC06} {
 			obs = append(obs, f(cx)...)
 		}
 		obs = append(obs, rulesHygiene(cx, "C01")...)
 		return obs
 	},
 		Expl: "Structural necessary conditions of 'tampered or mismatched proofs are rejected': (own) both circuits call VerifierChip.Verify on every path with their own fields; Verify calls the PLONK check and FRI verification on every path with the derived challenges, HashNoPad(publicInputs), the proof's openings/opening proof and the caps in order; every input leaf of the proof, the verifier data and the public inputs (enumerated from the types) influences at least one must-executed constraint; (union) the obligations of C11 (binding and order of the transcript), C12, C13, C14, C16, C17, C20 and C06; (state) no package-level or chip-level state survives from one circuit, proof or call to the next (tabled exceptions). Decides that every input is bound and every verification equation is emitted on every path for every element — not that the equations are the right polynomials.",
-		Rule: "own wiring/liveness obligations plus the union of the listed properties' obligations"})
+		Rule: "own wiring/liveness obligations plus the union of the listed properties' obligations (C06 C11 C12 C13 C14 C15 C16 C17 C20)"})
 	registerProp(&propDef{ID: "C18", Rules: withState("C18", rulesC18), Floor: 210,
 		Expl: "Regular-language analysis of the gate registry: the 14 patterns are read from the program (constant arguments of regexp.MustCompile stored under the keys of gateRegexHandlers), compiled with regexp/syntax and wrapped as 'contains a match' (the lookup is unanchored); by product/subset constructions against a reference grammar of plonky2's Debug-format identifiers it is decided that every supported identifier is matched by its own pattern and by no other (so the result is independent of Go's randomised map iteration), that identifiers of unimplemented gates (lookup, lookup-table, u32 arithmetic/add-many/subtraction/range-check, comparison, interleave gates, other extension degrees) match no pattern or are refused by the handler; plus: the no-match exit panics and every return is a handler result; each capture group flows through an error-checked strconv parse into the field of the same meaning (dependency analysis per constant map key); registry ↔ Gate implementations is a bijection; circuits with hiding are refused.",
 		Rule: "one obligation per (gate template × pattern), per unimplemented template, per capture group, per parse call, per registry entry"})
